@@ -1,12 +1,34 @@
-# dev helper: python3-vt tools/mutant.py <file> <func-filter> <<< "old\n===\nnew"   (scratch copy, one edit, re-prove)
-import sys, shutil, os, subprocess
-# usage: mutt.py <file> <func-filter> <<< "old\n===\nnew"
+# dev helper: python3-vt tools/mutant.py <file under nutree/> <Class.func | func> <<< "old\n===\nnew"
+# scratch copy of /repo/nutree, ONE textual edit inside the named function only, re-prove every contract whose name contains <func>
+import ast, os, shutil, subprocess, sys
+
 file, flt = sys.argv[1], sys.argv[2]
 old, new = sys.stdin.read().split("\n===\n")
 new = new.rstrip("\n")
-d='/tmp/mutX'; shutil.rmtree(d, ignore_errors=True); os.makedirs(d); shutil.copytree('/repo/nutree', d+'/nutree')
-p=f'{d}/nutree/{file}'; s=open(p).read(); assert s.count(old)>=1, "pattern not found"; s=s.replace(old,new,1); open(p,'w').write(s)
-r=subprocess.run(['python3-vt','/verif/tools/prove.py',d,flt],capture_output=True,text=True)
-lines=[l for l in r.stdout.split('\n') if 'mf ' not in l]
-print('\n'.join(l[:170] for l in lines[:8])); print('...', len([l for l in lines if '??' in l or '~~' in l]), 'open;', r.stderr[-300:])
+d = "/tmp/mutX"
+shutil.rmtree(d, ignore_errors=True)
+os.makedirs(d)
+shutil.copytree("/repo/nutree", d + "/nutree")
+p = f"{d}/nutree/{file}"
+s = open(p).read()
+cls, _, fn = flt.rpartition(".")
+span = None
+for node in ast.walk(ast.parse(s)):
+    if isinstance(node, ast.ClassDef) and (not cls or node.name == cls.split(".")[-1]):
+        for b in node.body:
+            if isinstance(b, ast.FunctionDef) and b.name == fn:
+                span = (b.lineno, b.end_lineno)
+    if not cls and isinstance(node, ast.FunctionDef) and node.name == fn and span is None:
+        span = (node.lineno, node.end_lineno)
+assert span, f"function {flt} not found in {file}"
+lines = s.split("\n")
+body = "\n".join(lines[span[0] - 1:span[1]])
+assert body.count(old) >= 1, "pattern not found inside the function"
+body = body.replace(old, new, 1)
+s = "\n".join(lines[:span[0] - 1] + body.split("\n") + lines[span[1]:])
+open(p, "w").write(s)
+r = subprocess.run(["python3-vt", "/verif/tools/prove.py", d, fn], capture_output=True, text=True)
+out = [l for l in r.stdout.split("\n") if "mf " not in l]
+print("\n".join(l[:170] for l in out[:8]))
+print("...", len([l for l in out if "??" in l or "~~" in l]), "open;", r.stderr[-300:])
 shutil.rmtree(d)
